@@ -130,6 +130,12 @@ def configs(rng, quick):
     out.append(([5, 6, 7, 9], [1, 2], {"v_parallel": [0, 2, 1, 3], "poloidal": [3, 2, 1, 0]}))
     out.append(([3, 4, 5], [2, 2], {"a": [0, 1, 2], "b": [0, 2, 1], "c": [2, 1, 0]}))
     out.append(([7, 5], [3], {"a": [0, 1], "b": [1, 0]}))
+    # extents of very different size on the two exchanged dimensions (a padded block is max-block x max-block: a size computed from the
+    # wrong dimension is too small when the distributed extent is tiny and the other one large, and the other way round)
+    out.append(([2, 9, 3], [2], {"a": [0, 1, 2], "b": [1, 0, 2]}))
+    out.append(([10, 3], [3], {"a": [0, 1], "b": [1, 0]}))
+    out.append(([2, 3, 11, 7], [2, 2], {"flux_surface": [0, 3, 1, 2], "v_parallel": [0, 2, 1, 3], "poloidal": [3, 2, 1, 0]}))
+    out.append(([9, 2, 2, 3], [2, 1], {"flux_surface": [0, 3, 1, 2], "v_parallel": [0, 2, 1, 3], "poloidal": [3, 2, 1, 0]}))
     n = 6 if quick else 40
     for _ in range(n):
         nd = rng.choice([2, 3, 4])
